@@ -26,6 +26,7 @@ Rewrites applied by the extractor are a closed list (reported per unit):
   R3 body of an item marked `external`
   R6 argument-position `impl Trait` -> named type parameter
   R7 return value naming `-> T` -> `-> (r: T)` (Verus syntax for naming the result; no semantic change)
+  R9 `const` -> `exec const` with an `ensures` (Verus mode annotation) when the template gives a spec for a const
   R8 restricted visibility `pub(crate)` / `pub(super)` -> `pub` (the unit is a single-file crate)
 Macros (format!, format_error!, debug_assert!, ...) are NOT rewritten: the unit prelude defines
 shim macro_rules! for them (R4/R5 of DESIGN.md are realised as macro shims).
@@ -239,6 +240,38 @@ def extract(node, variant, report):
             k = close + 1
             continue
         k += 1
+    # R8 (cont.) private struct fields -> pub (Verus treats a datatype with a private field as opaque in specs)
+    if it.kind == 'struct':
+        # find the field list: first '{' or '(' after the name/generics
+        k = src._pos2idx[it.head] + 2
+        if ct[k].text == '<':
+            k = rsitems._skip_angle(ct, k)
+        while k < i1 and ct[k].text not in ('{', '(', ';'):
+            k += 1
+        if k < i1 and ct[k].text in ('{', '('):
+            tuple_like = ct[k].text == '('
+            close = rsitems.match_close(ct, k)
+            j = k + 1
+            at_start = True
+            while j < close:
+                t = ct[j]
+                if at_start:
+                    while ct[j].text == '#':
+                        j = rsitems.match_close(ct, j + 1) + 1
+                    t = ct[j]
+                    if j < close and not (t.kind == 'ident' and t.text == 'pub'):
+                        edits.append((t.pos, t.pos, 'pub ', 'R8'))
+                        rule('R8')
+                    at_start = False
+                if t.kind == 'punct' and t.text == '<':
+                    j = rsitems._skip_angle(ct, j)
+                    continue
+                if t.kind == 'punct' and t.text in rsitems.OPEN:
+                    j = rsitems.match_close(ct, j) + 1
+                    continue
+                if t.kind == 'punct' and t.text == ',':
+                    at_start = True
+                j += 1
     if it.kind == 'fn':
         parts = rsitems.fn_parts(src, it)
         # R6 impl Trait in argument position
@@ -317,6 +350,17 @@ def extract(node, variant, report):
             edits.append((it.body_open, it.end, '{ unimplemented!() }', 'R3'))
             edits.append((it.start, it.start, '#[verifier::external_body] ', 'R3'))
             rule('R3')
+    elif it.kind == 'const' and node['spec']:
+        # R9: `const X: T = e;` -> `exec const X: T ensures ... = e;` (Verus mode annotation for consts built by exec calls)
+        k = src._pos2idx[it.head]
+        edits.append((it.head, it.head, 'exec ', 'R9'))
+        rule('R9')
+        j = k
+        while ct[j].text != '=' or ct[j + 1].text == '=':
+            j += 1
+        spec_lines = [_pick(h, variant) for h in node['spec']]
+        edits.append((ct[j].pos, ct[j].end, '\n' + '\n'.join(spec_lines) + '\n{', 'spec'))
+        edits.append((it.end - 1, it.end, '}', 'R9'))
     else:
         if node['spec'] or node['loops'] or node['ret']:
             raise TemplateError('spec/loop/ret on a non-fn item: %s' % node['path'])
